@@ -34,7 +34,7 @@ TWINS = ("dataclass", "enum", "namedtuple", "typeddict", "strsub")
 
 def bounds(tier):
     return dict(tier=tier, grammar_schemas=len(_schemas(tier)), modes=["module", "local"], functional_kinds=list(KINDS), shapes=list(SHAPES),
-                twin_kinds=list(TWINS), definition_sites=["function-local", "functional API not bound to its module", "twin qualified name"])
+                twin_kinds=list(TWINS), overridden_fields=dict(annotations=list(OVERRIDE_WRAPS), overrides=list(OVERRIDES)), definition_sites=["function-local", "functional API not bound to its module", "twin qualified name"])
 
 
 def _schemas(tier):
@@ -46,7 +46,14 @@ def units(tier):
     out = [("grammar", d, mode) for d in _schemas(tier) for mode in ("module", "local")]
     out += [("functional", k, s, site) for k in KINDS for s in SHAPES for site in ("local", "unbound")]
     out += [("twin", k, s) for k in TWINS for s in ("fields", "tuple", "union", "list_of_each")]
+    # a field whose conversion is overridden: the (un)packer registry never visits the annotation, yet its rendered name is
+    # still loaded by the error-reporting lines
+    out += [("override", w, o) for w in OVERRIDE_WRAPS for o in OVERRIDES]
     return out
+
+
+OVERRIDE_WRAPS = ("list585", "dict585", "tuple585", "set585", "List", "Dict", "Optional585", "mproxy", "nested585")
+OVERRIDES = ("field_pass_through", "field_deserialize", "field_serialize", "field_strategy_dict", "config_strategy")
 
 
 # ---- capture of generated code -----------------------------------------------------------------
@@ -510,8 +517,82 @@ def run_twin(unit):
     return res
 
 
+def run_override(unit):
+    from mashumaro import DataClassDictMixin, pass_through
+    from mashumaro.config import BaseConfig
+    from mashumaro.exceptions import InvalidFieldValue, MissingField
+    from vmc import tmod
+    _, wrap, how = unit
+    res = core.UnitResult()
+
+    def V(clause, oc, detail):
+        res.violation(f"{clause}|override|{wrap}|{how}|{oc}", clause, oc, dict(unit=unit, facts=dict(site="override", wrap=wrap, how=how)), detail)
+    X = tmod.Pt        # a user class of another module (vmc.tmod), reachable by its dotted name
+    H = {"list585": list[X], "dict585": dict[str, X], "tuple585": tuple[X, ...], "set585": set[X], "List": typing.List[X],
+         "Dict": typing.Dict[str, X], "Optional585": typing.Optional[list[X]], "mproxy": types.MappingProxyType[str, X],
+         "nested585": dict[str, list[X]]}[wrap]
+    good = {"list585": [X(1, 2)], "dict585": {"k": X(1, 2)}, "tuple585": (X(1, 2),), "set585": {X(1, 2)}, "List": [X(1, 2)],
+            "Dict": {"k": X(1, 2)}, "Optional585": [X(1, 2)], "mproxy": types.MappingProxyType({"k": X(1, 2)}),
+            "nested585": {"k": [X(1, 2)]}}[wrap]
+    meta, cfg = {}, {}
+
+    def boom(v):
+        raise ValueError("rejected by the user function")
+    if how == "field_pass_through":
+        meta = {"serialization_strategy": pass_through}
+    elif how == "field_deserialize":
+        meta = {"deserialize": boom}
+    elif how == "field_serialize":
+        meta = {"serialize": lambda v: v, "deserialize": boom}
+    elif how == "field_strategy_dict":
+        meta = {"serialization_strategy": {"serialize": lambda v: v, "deserialize": boom}}
+    else:
+        cfg = {"serialization_strategy": {H: {"serialize": lambda v: v, "deserialize": boom}}}
+    with space.Ctx() as ctx, Capture() as cap:
+        try:
+            Cfg = type("Config", (BaseConfig,), cfg)
+            W = make_dataclass("OW", [("n", int), ("x", H, field(metadata=meta)), ("y", typing.Optional[H], field(default=None, metadata=meta))],
+                               bases=(DataClassDictMixin,), namespace={"Config": Cfg, "__module__": ctx.modname}, module=ctx.modname)
+            ctx.ns["OW"] = W
+        except Exception as e:   # noqa: BLE001
+            sys.settrace(None)
+            res.cases += 1
+            V("build-failed", type(e).__name__, f"{type(e).__name__}: {e!s:.200}")
+            return res
+        probes = [("missing-x", {"n": 1}, MissingField), ("missing-n", {"x": good}, MissingField), ("invalid-n", {"n": "zz", "x": good}, InvalidFieldValue)]
+        if how != "field_pass_through":
+            probes.append(("invalid-x", {"n": 1, "x": good}, InvalidFieldValue))
+            probes.append(("invalid-y", {"n": 1, "x": good, "y": good}, InvalidFieldValue))
+        for name, d, want in probes:
+            res.cases += 1
+            res.transitions += 1
+            r = e1.outcome(W.from_dict, d)
+            if r[0] == "ok":
+                if how == "field_pass_through" or name.startswith("missing"):
+                    V("unexpected-success", name, f"{name}: {r[1]!r:.150}")
+                continue
+            lm = library_made(r[1])
+            if lm:
+                V("library-made-error", lm.split(":")[0], f"{name}: expected {want.__name__}, got {lm}")
+            elif not isinstance(r[1], want):
+                V("wrong-error", type(r[1]).__name__, f"{name}: expected {want.__name__}, got {r[1]!r:.150}")
+            else:
+                res.outcomes["documented-error"] += 1
+                res.nontrivial += 1
+        r = e1.outcome(lambda: W(1, good).to_dict())
+        res.cases += 1
+        if r[0] == "exc" and library_made(r[1]):
+            V("library-made-error", type(r[1]).__name__, f"to_dict: {library_made(r[1])}")
+    for fn, name in unresolved(cap.units)[:3]:
+        V("name-unresolved", "static", f"generated function {fn} loads {name} which is neither in its globals nor a builtin")
+    res.counters["code_units_checked"] += len(cap.units)
+    res.sample(dict(override=how, annotation=wrap))
+    res.states += 1
+    return res
+
+
 def run_unit(unit):
-    return {"grammar": run_grammar, "functional": run_functional, "twin": run_twin}[unit[0]](unit)
+    return {"grammar": run_grammar, "functional": run_functional, "twin": run_twin, "override": run_override}[unit[0]](unit)
 
 
 def replay(case):
